@@ -194,14 +194,17 @@ def check_c17(tier):
             if st is None:
                 continue
             events.append({"ev": "selftest", "lang": l, "build": bool(st["build_ok"]), "ran": int(st["ran"]), "passed": int(st["passed"]), "failed": int(st["failed"])})
-            meta.append({"prog": prog["id"], "lang": l, "log": st.get("log", "")[-700:]})
+            meta.append({"prog": prog["id"], "lang": l, "log": st.get("log", "")[-700:], "failed": int(st["failed"]), "ran": int(st["ran"])})
     vs = validate_lifecycle(rep, events, meta)
     byid = {p["id"]: p for p in progs}
     failing = {}
     for v in vs:
         m = v["meta"]
         for f in v["fails"]:
-            failing.setdefault("%s|%s|%s" % (m["lang"], m["prog"], f["kind"]), m)
+            kind = f["kind"]
+            if kind == "selftest-fails":
+                kind = "selftest-fails:%dof%d" % (m.get("failed", 0), m.get("ran", 0))
+            failing.setdefault("%s|%s|%s" % (m["lang"], m["prog"], kind), m)
     for e, m in zip(events, meta):
         if e["ev"] == "selftest" and not any(k.startswith("%s|%s|" % (m["lang"], m["prog"])) for k in failing):
             rep.case("%s|%s|ok" % (m["lang"], m["prog"]), True)
